@@ -21,6 +21,7 @@ package main
 import (
 	"encoding/json"
 	"fmt"
+	"github.com/superfly/litefs/verifharness/repl"
 	"io"
 	"os"
 	"runtime"
@@ -319,6 +320,8 @@ func main() {
 	// ---- 5. hostile length prefixes in a memory-limited child (smoke probe) ----
 	hostileProbe(rep, args)
 
+	// the consuming side: a real replica store reads a stream that contains its own transaction coming back
+	repl.StreamConsumer(rep, "C18")
 	rep.Finish()
 }
 
